@@ -15,7 +15,7 @@ RULE = ('configurations = every subset (size <=S) of {--gc 5, --gc 5 3 2, -G '
         'ends {all pass, failing+erroring tests, layer testSetUp raises, layer '
         'testTearDown raises, KeyboardInterrupt in a test body, '
         'KeyboardInterrupt in a test setUp, -x with a failing test, '
-        'SystemExit from a layer setUp, a test that adds warnings filters, a test that calls sys.settrace(f) and sys.settrace(None), a test that leaves sys.stdout replaced (with --buffer)}; the real Runner is run in-process and '
+        'SystemExit from a layer setUp, a test that adds warnings filters, a test that calls sys.settrace(f) and sys.settrace(None), a layer that swaps sys.stdout in setUp/tearDown, a layer that removes the search path from sys.path, a test that leaves sys.stdout replaced (with --buffer)}; the real Runner is run in-process and '
         'a snapshot of gc thresholds/debug flags, traceback.format_exception / '
         'print_exception, sys.settrace (the function), the active trace and '
         'profile hooks (sys and threading), warnings.filters and the identity '
@@ -24,12 +24,12 @@ RULE = ('configurations = every subset (size <=S) of {--gc 5, --gc 5 3 2, -G '
 ASSUMPTIONS = [
     'signal handlers (pdb installs a SIGINT handler) and logging handlers are not part of the stated state',
 ]
-BOUND = {'quick': 'subsets of size <=3 (176) x 11 endings', 'thorough': 'all 1024 subsets x 11 endings'}
+BOUND = {'quick': 'subsets of size <=3 (232) x 13 endings', 'thorough': 'all 2048 subsets x 13 endings'}
 CHUNK = 8
 
-OPTS = ['gc1', 'gc3', 'G', 'cov', 'prof', 'buf', 'warn', 'D', 'gcat', 'list']
+OPTS = ['gc1', 'gc3', 'G', 'cov', 'prof', 'buf', 'warn', 'D', 'gcat', 'list', 'path2']
 ENDS = ['normal', 'fail', 'hookS', 'hookD', 'kbint', 'kbint_setup', 'x', 'sysexit_layer',
-        'warnfilter', 'leave_replaced', 'settrace']
+        'warnfilter', 'leave_replaced', 'settrace', 'layer_swaps', 'layer_unpaths']
 
 
 def cases(tier, seed):
@@ -73,6 +73,12 @@ def build(end):
     elif end == 'warnfilter':
         # a test that installs warnings filters of its own
         q1 = 'warnfilter'
+    elif end == 'layer_swaps':
+        # no unit tests; the first layer runs with a private sys.stdout that it
+        # installs in setUp and removes in tearDown
+        A['sw'] = True
+    elif end == 'layer_unpaths':
+        A['unpath'] = True
     elif end == 'settrace':
         # a well-behaved test that installs a trace function and removes it
         q1 = 'settrace'
@@ -111,6 +117,10 @@ def run_case(case):
             argv += ['--gc-after-test', '-vvvv']
         elif o == 'list':
             argv += ['--list-tests']
+        elif o == 'path2':
+            # the same search path twice (wrapper defaults + command line)
+            os.makedirs(os.path.join(WD, 'p'), exist_ok=True)
+            argv += ['--path', os.path.join(WD, 'p'), '--path', os.path.join(WD, 'p')]
         elif o == 'D':
             argv += ['-D']
             stdin = io.StringIO('c\n' * 20)
